@@ -31,7 +31,7 @@ ASSUMPTIONS = [
 
 def run_shard(ctx):
     M = make_doc_machine(ctx, "C03")
-    ctx.run_machine(M, ctx.budget(16 * 130, 16 * 1500), 12 if not ctx.thorough else 20, replay=replay_raise)
+    ctx.run_machine(M, ctx.budget(16 * 130, 16 * 800), 12 if not ctx.thorough else 20, replay=replay_raise)
 
 
 def replay_raise(case, ctx):
